@@ -435,6 +435,13 @@ class Exec:
             rv = _range_eval(st, key)
             if rv is not None:
                 known = rv
+        if known is None and is_bool:
+            # `r.is_ok()` after the variant of r was decided (by a match, a `?`, a map) - and the other way round
+            vt = _variant_test(key)
+            if vt is not None:
+                dk = st.known.get(("disc", vt[0]))
+                if isinstance(dk, int):
+                    known = 1 if dk == vt[1] else 0
         cands = []
         for v, bb in vals:
             cands.append((bb, v))
@@ -476,6 +483,10 @@ class Exec:
         st.known[key] = v
         if isinstance(v, int):
             _range_update(st, key, v)
+            vt = _variant_test(key)
+            if vt is not None and ("disc", vt[0]) not in st.known and v in (0, 1):
+                # two-variant enums: the test decides the discriminant either way
+                st.known[("disc", vt[0])] = vt[1] if v == 1 else 1 - vt[1]
         if isinstance(key, tuple) and key[0] == "bin" and key[1] in ("Eq", "Ne") and isinstance(v, int) and v in (0, 1):
             twin = ("bin", "Ne" if key[1] == "Eq" else "Eq", key[2], key[3])
             st.known[twin] = 1 - v
@@ -697,6 +708,9 @@ class Exec:
             v = self._read_place(body, st, rv["place"])
             if isinstance(v, tuple) and v[0] == "agg" and len(v) > 4 and v[4] is not None:
                 return ("c", v[4], "isize")
+            if isinstance(v, tuple) and v[0] == "erropt":
+                # `r.err()` is Some (1) exactly when r is Err (1): the same discriminant, the same question
+                return ("disc", v[1])
             return ("disc", v)
         if k == "aggregate":
             fields = tuple(self._operand(body, st, f) for f in rv["fields"])
@@ -1147,6 +1161,19 @@ def _errp(r):
 # the bits): `State::from_raw(curr.as_raw())` denotes `curr`
 INVERSE_PAIRS = {"utils::State::from_raw": "utils::State::as_raw"}
 
+_VARIANT_INDEX = {"Ok": 0, "Err": 1, "None": 0, "Some": 1}
+
+
+def _variant_test(key):
+    """`Result::is_ok(&r)` & co. -> (r, discriminant the test asks for)"""
+    if isinstance(key, tuple) and key[0] == "call" and norm(key[1]) in _VARIANT_TESTS and key[2]:
+        x = key[2][0]
+        while isinstance(x, tuple) and x[0] == "ref":
+            x = x[1]
+        return (x, _VARIANT_INDEX[_VARIANT_TESTS[norm(key[1])]])
+    return None
+
+
 _VARIANT_TESTS = {"std::result::Result::is_ok": "Ok", "std::result::Result::is_err": "Err",
                   "std::option::Option::is_some": "Some", "std::option::Option::is_none": "None"}
 
@@ -1248,6 +1275,10 @@ def _field(name, base):
                 pass
         if base[0] == "variant" and isinstance(base[2], tuple) and base[2][0] == "agg":
             return _field(name, base[2])
+        if base[0] == "variant" and base[1] == "Some" and name in (0, "0") and isinstance(base[2], tuple) and \
+                base[2][0] in ("erropt", "okopt"):
+            # the payload of `r.err()` / `r.ok()` is the payload of r
+            return _field(name, ("variant", "Err" if base[2][0] == "erropt" else "Ok", base[2][1]))
         if base[0] == "variant" and base[1] == "Ok" and name in (0, "0") and isinstance(base[2], tuple) and \
                 base[2][0] == "call" and norm(base[2][1]) in _STD_CAS and len(base[2][2]) > 1:
             # a successful compare_exchange returns the value it replaced, which is its `current` argument
@@ -2013,7 +2044,39 @@ def _model_cell_replace(ex, body, st, bb, t, c, args, frame, cont, target, nt, s
         yield r
 
 
+def _model_local_take(ex, body, st, bb, t, c, args, frame, cont, target, nt, span):
+    """Option::take / Option::replace / mem::replace / mem::take on a LOCAL variable (`&mut x` of the current frame):
+    the old value is the result and the local holds the new one.  Anything reached through a pointer stays opaque."""
+    a0 = args[0] if args else None
+    if not (isinstance(a0, tuple) and a0[0] == "ref" and len(a0) > 2 and isinstance(a0[2], tuple) and a0[2][0] == "local"):
+        return
+    l = a0[2][1]
+    old = a0[1]
+    if nt == "std::option::Option::take":
+        new = _NONE
+    elif nt == "std::option::Option::replace" and len(args) > 1:
+        new = _some(args[1])
+    elif nt == "std::mem::replace" and len(args) > 1:
+        new = args[1]
+    elif nt == "std::mem::take":
+        # only where the default is known: an Option
+        if not (isinstance(old, tuple) and (old[0] in ("okopt", "erropt") or (old[0] == "agg" and old[2] in ("Some", "None")))):
+            return
+        new = _NONE
+    else:
+        return
+    st.env[l] = new
+    st.events.append(Event("call", bb, frame, body, target=target, ntarget=nt, args=args, result=old, callee=c,
+                           span=span, fterm=None, pure=True))
+    for r in cont(st, old):
+        yield r
+
+
 HIGHER_ORDER = {
+    "std::option::Option::take": _model_local_take,
+    "std::option::Option::replace": _model_local_take,
+    "std::mem::replace": _model_local_take,
+    "std::mem::take": _model_local_take,
     "std::iter::Iterator::for_each": _model_iter_for_each,
     "std::iter::Iterator::any": _mk_iter_any("any"),
     "std::iter::Iterator::all": _mk_iter_any("all"),
